@@ -640,7 +640,12 @@ func (mgr *Manager) invalidateTags(updatedStreams, resetStreams, addedStreams bi
 			//TODO: is a matching stream really uncertain?
 			tin.Uncertain = mgr.allStreams
 		} else if ti.features.MainFeatures&^query.FeatureFilterID == 0 {
-			continue
+			// id filters don't depend on the content of a stream, but new streams can match them (id:5:)
+			if addedStreams.IsZero() {
+				continue
+			}
+			tin.Uncertain = ti.Uncertain.Copy()
+			tin.Uncertain.Or(addedStreams)
 		} else {
 			tin.Uncertain = ti.Uncertain.Copy()
 			tin.Uncertain.Or(addedStreams)
